@@ -498,6 +498,15 @@ class World:
             sentinel = ASTNode.get_any("no-such-id", o)
             if sentinel is not o:
                 raise self.viol("C03.5 get_any-default", f"C03.5:default:{kind}", "get_any(unknown, default) did not return the default")
+            if t.get("no-such-id") is not None or t.get("no-such-id", o) is not o or t.get("no-such-id", o, strict=False) is not o:
+                raise self.viol("C03.5 get-default", f"C03.5:typed-default:{kind}", "get(unknown id[, default]) did not return None / the default")
+        # typed lookups of ids that are registered to nobody (detached nodes whose id no one else took)
+        for o in self.last_reach[:40]:
+            i = self.inf(o)
+            if i.reg or ASTNode.get_any(o.id) is not None:
+                continue
+            if type(o).get(o.id) is not None or type(o).get(o.id, strict=False) is not None or type(o).get(o.id, o) is not o:
+                raise self.viol("C03.5 get-unregistered", f"C03.5:unregistered:{kind}", f"{i.cls}.get(id) of the detached node {i.name}, whose id is registered to nobody, did not return None / the default")
         if self.old_dyn is not None:
             # two live classes share the name "Dyn": strict get() is by class, not by name
             od = self.old_dyn
@@ -1552,6 +1561,7 @@ class Gen:
         if what == "visit":
             op["rules"] = {c: "keep" for c in r.sample(["Expr", "LeafA", "Seq", "Pair", "LeafB", "Falsy", "LeafA2"], 3)}
             op["strict"] = r.random() < 0.5
+            op["vshape"] = r.choice(["flat", "flat", "base", "split", "validate"])
         return op
 
     def g_poke(self, actor: str) -> dict[str, Any] | None:
@@ -1609,7 +1619,7 @@ class Gen:
         o = self.w.node_at(ref)
         if len(walk(o)) > 25:
             return None
-        op: dict[str, Any] = {"op": "transform", "n": ref, "rules": self.gen_rules(o), "strict": r.random() < 0.4, "out": self.out()}
+        op: dict[str, Any] = {"op": "transform", "n": ref, "rules": self.gen_rules(o), "strict": r.random() < 0.4, "vshape": r.choice(["flat", "flat", "base", "split", "validate"]), "out": self.out()}
         if self.cfg["faults"]:
             op["enum"] = True
         return op
@@ -1807,7 +1817,7 @@ from pyoak.origin import SOURCE_OPTIMIZED_SERIALIZATION_KEY, NoOrigin, NoPositio
 from pyoak.tree import Tree as PTree  # noqa: E402
 from pyoak.visitor import ASTTransformVisitor, ASTVisitor  # noqa: E402
 
-FORMATS = ("dict", "json", "msgpack", "yaml")
+FORMATS = ("dict", "json", "msgpack", "yaml", "jsonb", "jsonb2")  # jsonb / jsonb2: to_jsonb plain / indented, read by from_json
 
 
 def snap_tree(o: Any, shared: dict[int, int], counter: list[int], with_ref: bool = True) -> dict[str, Any]:
@@ -1845,13 +1855,15 @@ def serialize(o: Any, fmt: str, opts: dict[str, Any] | None) -> Any:
         return o.to_msgpck(serialization_options=opts)
     if fmt == "yaml":
         return o.to_yaml(serialization_options=opts)
+    if fmt in ("jsonb", "jsonb2"):
+        return o.to_jsonb(indent=fmt == "jsonb2", serialization_options=opts)
     raise HarnessError(fmt)
 
 
 def deserialize(cls: Any, data: Any, fmt: str, opts: dict[str, Any] | None) -> Any:
     if fmt == "dict":
         return cls.as_obj(data, serialization_options=opts)
-    if fmt == "json":
+    if fmt in ("json", "jsonb", "jsonb2"):
         return cls.from_json(data, serialization_options=opts)
     if fmt == "msgpack":
         return cls.from_msgpck(data, serialization_options=opts)
@@ -1867,13 +1879,13 @@ def ser_opts(name: str | None) -> dict[str, Any] | None:
 
 
 def payload_to_json(data: Any, fmt: str) -> Any:
-    if fmt == "msgpack":
+    if fmt in ("msgpack", "jsonb", "jsonb2"):
         return {"b64": base64.b64encode(data).decode("ascii")}
     return data
 
 
 def payload_from_json(j: Any, fmt: str) -> Any:
-    if fmt == "msgpack":
+    if fmt in ("msgpack", "jsonb", "jsonb2"):
         return base64.b64decode(j["b64"])
     return j
 
@@ -1916,12 +1928,34 @@ def _mk_visit(cls_name: str, rule: Any, world: "World"):
     return visit
 
 
-def make_visitor(rules: dict[str, Any], strict: bool, world: "World", transform: bool = True) -> Any:
+def _shape(V0: Any, name: str, ns: dict[str, Any], shape: str) -> Any:
+    """How the visit methods are spread over the visitor's class hierarchy: flat (all on the class), base (all on a
+    base visitor class, the instantiated class defines none), split (half / half, `strict` set on the base only),
+    validate (flat, annotated `node: <Class>`, defined with validate=True)."""
+    meths = sorted(k for k in ns if k.startswith("visit_"))
+    if shape == "base":
+        B = type(name + "Base", (V0,), ns)
+        return type(name, (B,), {})
+    if shape == "split":
+        lower = {k: ns[k] for k in meths[::2]}
+        upper = {k: v for k, v in ns.items() if k not in lower}
+        B = type(name + "Base", (V0,), upper)
+        return type(name, (B,), lower)
+    if shape == "validate":
+        for k in meths:
+            ns[k].__annotations__ = {"node": k[6:]}
+        import types as _types
+
+        return _types.new_class(name, (V0,), {"validate": True}, lambda d: d.update(ns))
+    return type(name, (V0,), ns)
+
+
+def make_visitor(rules: dict[str, Any], strict: bool, world: "World", transform: bool = True, shape: str = "flat") -> Any:
     ns: dict[str, Any] = {"strict": strict}
     for cls_name, rule in rules.items():
         ns["visit_" + cls_name] = _mk_visit(cls_name, rule, world)
     if transform:
-        V = type("RuleVisitor", (ASTTransformVisitor,), ns)
+        V = _shape(ASTTransformVisitor, "RuleVisitor", ns, shape)
     else:
         def generic_visit(self, node):  # noqa: ANN001
             self.log.append(("generic", cname(node)))
@@ -1936,7 +1970,7 @@ def make_visitor(rules: dict[str, Any], strict: bool, world: "World", transform:
                 visit.__name__ = "visit_" + cn
                 return visit
             ns2["visit_" + cls_name] = mk(cls_name)
-        V = type("LogVisitor", (ASTVisitor,), ns2)
+        V = _shape(ASTVisitor, "LogVisitor", ns2, shape)
     v = V()
     v.log = []
     return v
@@ -2378,11 +2412,13 @@ def op_obs(self: World, op: dict[str, Any]) -> str:
                 a.to_json(serialization_options=so)
             elif fmt == "msgpack":
                 a.to_msgpck(serialization_options=so)
+            elif fmt in ("jsonb", "jsonb2"):
+                a.to_jsonb(indent=fmt == "jsonb2", serialization_options=so)
             else:
                 a.to_yaml(serialization_options=so)
             self.stats.probes["ser_with_option_subset"] += 1
         elif what == "visit":
-            v = make_visitor(op.get("rules", {"LeafA": "keep"}), op.get("strict", False), self, transform=False)
+            v = make_visitor(op.get("rules", {"LeafA": "keep"}), op.get("strict", False), self, transform=False, shape=op.get("vshape", "flat"))
             for x in walk(a)[:12]:
                 v.visit(x)
         else:
@@ -2560,7 +2596,7 @@ def op_transform(self: World, op: dict[str, Any]) -> str:
     except _UserError:
         exp_raises = True
     pre_objs = {id(x) for x in self.last_reach} | {id(v) for v in list(NODE_REGISTRY.values())}
-    v = make_visitor(rules, strict, self)
+    v = make_visitor(rules, strict, self, shape=op.get("vshape", "flat"))
     FAULTS.reset_hits()
     outcome = "ok"
     res = None
@@ -2617,7 +2653,7 @@ def op_transform(self: World, op: dict[str, Any]) -> str:
             collect()
             self.discover()
             before_reg = {kk: id(vv) for kk, vv in list(NODE_REGISTRY.items())}
-            v2 = make_visitor(rules, strict, self)
+            v2 = make_visitor(rules, strict, self, shape=op.get("vshape", "flat"))
             FAULTS.disarm()
             FAULTS.reset_hits()
             FAULTS.arm("visit", k)
